@@ -157,18 +157,19 @@ pub trait Interface: ErrorHandler {
     
             read_offset = read_end;
  
+            // If there is unprocessed data, shift it to the beginning of the buffer. This has to
+            // happen before the buffer is considered full, as it reclaims the processed part.
+            if proc_offset > 0 {
+                cmd_buf.copy_within(proc_offset..read_end, 0);
+                read_offset -= proc_offset;
+                proc_offset = 0;
+            }
+
             // Ensure `read_from` does not exceed the buffer length
             if read_offset >= cmd_buf.len() {
                 #[cfg(feature = "defmt")]
                 defmt::warn!("SCPI buffer overflow, resetting buffer");
                 read_offset = 0;
-                proc_offset = 0;
-            }
-            // If there is unprocessed data, shift it to the beginning of the buffer.
-            else if proc_offset > 0 {
-                cmd_buf.copy_within(proc_offset..read_end, 0);
-                read_offset -= proc_offset;
-                proc_offset = 0;
             }
         }
     }
